@@ -190,6 +190,8 @@ pub fn weight_scale(name: &str) -> Embedding {
         "W0" => Embedding { name: "W0", a: 0.0, b: 1.0 },
         "W1" => Embedding { name: "W1", a: 0.0, b: p2(-19) },
         "W2" => Embedding { name: "W2", a: 0.0, b: p2(18) },
+        // far below any absolute epsilon (C16: NaN only when the total weight IS zero)
+        "W3" => Embedding { name: "W3", a: 0.0, b: p2(-70) },
         _ => panic!("unknown weight scale {name}"),
     }
 }
@@ -814,7 +816,9 @@ pub fn process_line(v: &Value, want: &PWant, rep: &mut Report) {
             }
         }
     }
-    rep.sample(json!({"history": h, "spec_slot1": {"n": specs[0].n, "data": specs[0].data}}));
+    if rep.nontrivial.contains(&hs) {
+        rep.sample(json!({"history": h, "spec_slot1": {"n": specs[0].n, "data": specs[0].data}}));
+    }
     if want.family == "weighted" {
         run_type::<average::WeightedMean>(h, &ops, &specs, want, rep);
         run_type::<average::WeightedMeanWithError>(h, &ops, &specs, want, rep);
